@@ -126,7 +126,8 @@ PROPS.update({
 })
 
 _G_MC = [("glide", "MC_Glide", "MC_Glide.cfg", QT)]
-_G_TR = [("glide", "sched", QT), ("glide", "steps", QT), ("glide", "deadband", QT), ("glide", "extreme", QT)]
+_G_TR = [("glide", "sched", QT), ("glide", "steps", QT), ("glide", "deadband", QT), ("glide", "extreme", QT),
+         ("glide", "rates", QT)]
 PROPS.update({
     "C13": {"module": "glide", "mc": _G_MC, "traces": _G_TR,
             "rule": "distinct (sample rate, requested time) settings exercised; every logged sample evaluates the "
